@@ -172,23 +172,27 @@ def isUpdate : Call Nat → Bool
     `Artifact` (before the lock) — answer `err`, state unchanged.  `mv` = `Instance.ModelVersion()` =
     number of `UpdateParameter` calls so far that were accepted (`incModelVersion` runs after
     `ApplyMessage`; a call that panics in `i.Parameter` never reaches it). -/
-def runSeq (N : Nat) : Array (Node Nat) → Nat → List (Call Nat) → List String
+def runSeq (obs : Bool) (N : Nat) : Array (Node Nat) → Nat → List (Call Nat) → List String
   | _, _, [] => []
   | arr, mv, c :: cs =>
+    let blk := fun (r : String) (a : Array (Node Nat)) (m : Nat) =>
+      if obs then s!"{r} pv {" ".intercalate ((paramVersions a).map toString)} mv {m}" else r
     if callNode c ≥ N then
-      s!"err pv {" ".intercalate ((paramVersions arr).map toString)} mv {mv}" :: runSeq N arr mv cs
+      blk "err" arr mv :: runSeq obs N arr mv cs
     else
       let r := seqStep (N+1) (graphOf arr) c
       let arr' := table N r.1
       let mv' := if isUpdate c && decide (r.2 = .ok) then mv + 1 else mv
-      s!"{respStr r.2} pv {" ".intercalate ((paramVersions arr').map toString)} mv {mv'}" :: runSeq N arr' mv' cs
+      blk (respStr r.2) arr' mv' :: runSeq obs N arr' mv' cs
 
-def handleSeq : P String := do
+/-- `c13.seq` (obs = true: blocks with pv/mv) and `c13.http.seq` (obs = false: the same fold of
+    `seqStep`, the calls went through the edit server's HTTP handlers, only the responses are seen) -/
+def handleSeq (obs : Bool) : P String := do
   let ns ← pList pNode
   let calls ← pList pCall
   pEnd
   if !wfNodes ns then failure
-  pure (" ".intercalate (runSeq ns.length ns.toArray 0 calls))
+  pure (" ".intercalate (runSeq obs ns.length ns.toArray 0 calls))
 
 /-! ### (b) linearization search (untrusted) + verified witness check -/
 
@@ -481,7 +485,8 @@ def handleImmutable : P String := do
 def handle (op : String) (args : List String) : Option String :=
   match op with
   | "c13.holds.results_immutable" => (handleImmutable.run args).map (·.1)
-  | "c13.seq" => (handleSeq.run args).map (·.1)
+  | "c13.seq" => ((handleSeq true).run args).map (·.1)
+  | "c13.http.seq" => ((handleSeq false).run args).map (·.1)
   | "c13.holds.linearizable" => ((handleLin false).run args).map (·.1)
   | "c13.debug.search" => ((handleLin true).run args).map (·.1)
   | _ => none
